@@ -63,7 +63,7 @@ CATALOGUE = {
         "K.purpose-verify", "K.purpose-absent"],
     "android-safetynet": [
         "S.ver-missing", "S.response-missing", "S.jws-two-parts", "S.jws-four-parts", "S.nonce-other-data",
-        "S.basicintegrity-false", "S.basicintegrity-missing", "S.ts-past", "S.ts-future", "S.ts-in-seconds", "S.ts-in-microseconds", "S.ts-zero", "S.ts-nan", "S.ts-minus-infinity", "S.cn-other", "S.cn-missing",
+        "S.basicintegrity-false", "S.basicintegrity-missing", "S.basicintegrity-string-false", "S.basicintegrity-null-string", "S.ts-past", "S.ts-future", "S.ts-in-seconds", "S.ts-in-microseconds", "S.ts-zero", "S.ts-nan", "S.ts-minus-infinity", "S.cn-other", "S.cn-missing",
         "S.alg-es256", "S.sig-other-key", "S.payload-altered"],
     "chain": list(ca.CHAIN_FAULTS),
 }
@@ -772,6 +772,10 @@ def _safetynet_payload(b: _Build) -> dict:
                "ctsProfileMatch": True,
                "apkCertificateDigestSha256": [base64.b64encode(sha256(b"sim apk certificate")).decode("ascii")],
                "basicIntegrity": not b.has("S.basicintegrity-false")}
+    if b.has("S.basicintegrity-string-false"):
+        payload["basicIntegrity"] = "false"          # not the JSON value true
+    if b.has("S.basicintegrity-null-string"):
+        payload["basicIntegrity"] = "null"
     if b.has("S.basicintegrity-missing"):
         del payload["basicIntegrity"]
     return payload
